@@ -114,6 +114,15 @@ def run_config(ctx, rep, cfg):
                         wa = canon_fields(prog, [l for (l, w) in a.may.values()], h, b)
                         wr = canon_fields(prog, [l for (l, w) in r.may.values()], h, ref)
                         wa -= {"ctx.base_ptr"}
+                        if kind == "init":
+                            # in init the context IS the fresh block: writes through obj->ctx after attaching it and
+                            # writes to the block before attaching it are the same thing; making the handle inert on
+                            # the failing path is init's duty (C16), not a deviation
+                            wa = {("fresh" if x.startswith("ctx.") else x) for x in wa}
+                            wr = {("fresh" if x.startswith("ctx.") else x) for x in wr}
+                            if cl == "z":
+                                wa -= {"handle"}
+                                wr -= {"handle"}
                         if cl != "z":
                             extra_ok = {"ctx.counter"} if b.lanes > 1 else set()
                             if not (wr <= wa and wa - wr <= extra_ok):
